@@ -360,6 +360,21 @@ async def _drive_interest(rig, case, out):
     if front == 'v1' and cfg[0] == 'app':
         rig.app.int_validator = mk_validator('app', cfg[1], cfg[2])
     other_val = mk_validator(other, accept_name, 0)       # the route NOT in force always accepts
+    if case.get('history') == 'reattached':
+        # the prefix in force was attached before with ANOTHER (always accepting) validator, detached, and is now attached
+        # again as configured: nothing of the first attachment may still be in force
+        stale_val = mk_validator('stale-attachment', accept_name, 0)
+        stale_handler = mk_handler('stale-attachment')
+        try:
+            if front == 'v2':
+                rig.app.attach_handler(in_force, stale_handler, stale_val)
+                rig.app.detach_handler(in_force)
+            else:
+                rig.app.set_interest_filter(in_force, stale_handler, stale_val)
+                rig.app.unset_interest_filter(in_force)
+        except Exception as e:
+            out.append((pfx + f'reattach-raises:{al.exc_label(e)}', f'attach / detach of {in_force} raised {al.exc_label(e)}'))
+            return
     if front == 'v2':
         rig.app.attach_handler(in_force, mk_handler(in_force), route_val)
         rig.app.attach_handler(other, mk_handler(other), other_val)
@@ -494,6 +509,15 @@ def gen_cases(tier, rng):
                 for target in ('/p/x', '/p/q/x'):
                     yield {'part': 'interest', 'front': front, 'form': form, 'integrity': integ, 'validator': cfg,
                            'target': target}
+    # --- the same Interest cases on a prefix that was attached with another validator, detached and attached again
+    for front, verdicts in (('v2', V2_VERDICTS), ('v1', V1_VERDICTS)):
+        cfgs = [['route', v, 0] for v in verdicts]
+        if front == 'v1':
+            cfgs += [['lib', None, None]] + [['app', v, 0] for v in verdicts]
+        for form, integ in forms:
+            for cfg in cfgs:
+                yield {'part': 'interest', 'front': front, 'form': form, 'integrity': integ, 'validator': cfg, 'target': '/p/x',
+                       'history': 'reattached'}
     # --- random data cases: 1-3 Interests with arbitrary verdict / latency / arrival
     if True:
         for _ in range(60000 if thorough else 3000):
